@@ -7,6 +7,7 @@ CONSTANTS
   AllowRelate = TRUE
   AllowQueryX = TRUE
   AllowSweep = FALSE
+  AllowDeclare = FALSE
   CopyModes = {}
   UnregisteredModes = {}
   Hist = TRUE
